@@ -163,10 +163,14 @@ impl<T: Send> RendezvousSyncSender<T> {
 
 impl<T: Send> Clone for RendezvousSyncSender<T> {
   fn clone(&self) -> Self {
-    self.shared.add_sender();
+    // a clone of a closed handle is closed too: it must not revive a disconnected channel
+    let closed = self.closed.load(Ordering::Relaxed);
+    if !closed {
+      self.shared.add_sender();
+    }
     RendezvousSyncSender {
       shared: Arc::clone(&self.shared),
-      closed: AtomicBool::new(false),
+      closed: AtomicBool::new(closed),
     }
   }
 }
@@ -336,10 +340,14 @@ impl<T: Send> RendezvousAsyncSender<T> {
 
 impl<T: Send> Clone for RendezvousAsyncSender<T> {
   fn clone(&self) -> Self {
-    self.shared.add_sender();
+    // a clone of a closed handle is closed too: it must not revive a disconnected channel
+    let closed = self.closed.load(Ordering::Relaxed);
+    if !closed {
+      self.shared.add_sender();
+    }
     RendezvousAsyncSender {
       shared: Arc::clone(&self.shared),
-      closed: AtomicBool::new(false),
+      closed: AtomicBool::new(closed),
     }
   }
 }
